@@ -342,6 +342,30 @@ def r9_gone_caller_is_not_a_connection_error(ctx):
     R.floor("C03.R9", n, 5, "oneshot completions in the response path")
 
 
+
+def r10_call_is_polled_before_its_timeout(ctx):
+    """`each call completes with the response bearing its id` also when the front end is slow to poll: if the response is
+    already in the call's channel when the deadline passes, the call still gets it - in the async client's
+    run_future_until_timeout the race between the call and the timer polls the call first (`future::select(call, timer)`;
+    select polls its first argument first). A timer-first race (a biased select! with the timer branch on top) returns
+    RequestTimeout and drops a response that was received and routed in time."""
+    F, R = ctx.F, ctx.R
+    tr = ctx.tracer(follow_callers=False, follow_fields=False, inline_calls=False)
+    b = F.one(r"^jsonrpsee_core::client::async_client::Client::<L>::run_future_until_timeout::\{closure#0\}$")
+    R.fn(b)
+    sels = b.calls_to(r"^futures_util::future::select$")
+    ok = False
+    for c in sels:
+        a0 = tr.origins(b, c.args[0])
+        a1 = tr.origins(b, c.args[1])
+        first_is_call = bool(a0) and all(l.kind in ("param", "field", "resume", "unknown") for l in a0) and not any(l.kind == "call" and re.search(r"Delay::new$|time::sleep$|Sleep", l.detail.get("callee") or "") for l in a0)
+        second_is_timer = any(l.kind == "call" and re.search(r"Delay::new$|time::sleep$", l.detail.get("callee") or "") for l in a1)
+        if first_is_call and second_is_timer:
+            ok = True
+    others = [c for x in F.nested(b) for c in x.calls_to(r"^std::future::poll_fn$|tokio::time::timeout$|future::select_all$|future::select_ok$")]
+    R.check(ok and not others, "C03.R10", "timeout-race:call-first", "the call is polled before its timeout", "run_future_until_timeout does not race `future::select(call, timer)` with the call first (%s): when the response has already arrived but the caller is polled only after the deadline, the timer wins and the response bearing the call's id is dropped" % (sorted({short(c.name()) for c in others}) or "no such select found"), "%s:%d" % (b.file, b.lo))
+
+
 def rarr_every_element(ctx):
     """an array message is processed element by element to the end"""
     from .common import array_elements_all_processed
@@ -397,7 +421,7 @@ def rsel_shutdown_is_a_select_branch(ctx):
     shutdown_is_a_select_branch(ctx, "C03.SEL")
 
 
-RULES = [rsel_shutdown_is_a_select_branch, rids_wire_ids_derive_both, ratomic_ids_reserved_atomically, r1_id_and_wire_agree, r2_key_discipline, r3_insert_before_send, r4_completion_consumes, r5_allocator, r6_batch_slots, r7_ids_not_ordered, r8_http_client_id_check, r9_gone_caller_is_not_a_connection_error, rarr_every_element, rcancel_receive_is_cancel_safe, rkeys_manager_keys_not_derived] + BORROWED
+RULES = [r10_call_is_polled_before_its_timeout, rsel_shutdown_is_a_select_branch, rids_wire_ids_derive_both, ratomic_ids_reserved_atomically, r1_id_and_wire_agree, r2_key_discipline, r3_insert_before_send, r4_completion_consumes, r5_allocator, r6_batch_slots, r7_ids_not_ordered, r8_http_client_id_check, r9_gone_caller_is_not_a_connection_error, rarr_every_element, rcancel_receive_is_cancel_safe, rkeys_manager_keys_not_derived] + BORROWED
 
 LEVEL_TEXT = (
     "Structural necessary conditions of response demultiplexing decided from the type-checked program: the recorded id "
